@@ -223,6 +223,17 @@ func genRotAdversarial(out *bufio.Writer, rng *rand.Rand, count int) int {
 			}
 		}
 		w.Start = rng.Intn(len(w.Code))
+		if rng.Intn(12) == 0 {
+			// fields outside [0,M) (only the API can make them): placement must still not matter
+			vals := []uint64{m, 2*m - 1, 1 << 32, 1<<63 + 3, ^uint64(0), ^uint64(0) - m}
+			for j := range w.Code {
+				if rng.Intn(2) == 0 {
+					w.Code[j].A = gmars.Address(vals[rng.Intn(len(vals))])
+				} else {
+					w.Code[j].B = gmars.Address(vals[rng.Intn(len(vals))])
+				}
+			}
+		}
 		base := uint64(rng.Int63n(int64(m)))
 		// pick a cell of interest (relative to the load address) and a landing address
 		j := rng.Intn(len(w.Code))
@@ -451,12 +462,24 @@ func genExtremes(out *bufio.Writer, rng *rand.Rand, count int) int {
 			}
 		}
 		c := newAPICase(out, fmt.Sprintf("ex%d", n), "api", b.cfg, rng.Intn(2) == 0)
+		if !hugeCycles && rng.Intn(6) == 0 {
+			// WarriorData.Start is an int: a negative one is accepted by AddWarrior (tie only)
+			k := rng.Intn(len(b.warriors))
+			b.warriors[k].Start = -[]int{1, 2, int(m), int(m) + 1, 3}[rng.Intn(5)]
+			for i := range b.offsets {
+				b.offsets[i] = uint64(rng.Intn(4))
+			}
+		}
 		for i := range b.warriors {
 			c.add(&b.warriors[i])
 		}
 		for i := range b.warriors {
 			off := b.offsets[i]
 			ln := uint64(len(b.warriors[i].Code))
+			if b.warriors[i].Start < 0 {
+				c.spawn(i, off)
+				continue
+			}
 			switch rng.Intn(7) {
 			case 0:
 				off = top
@@ -473,11 +496,13 @@ func genExtremes(out *bufio.Writer, rng *rand.Rand, count int) int {
 			}
 			c.spawn(i, off)
 		}
-		c.runCycle(false)
-		if rng.Intn(2) == 0 {
-			c.attach()
+		if rng.Intn(3) != 0 {
+			c.runCycle(false)
+			if rng.Intn(2) == 0 {
+				c.attach()
+			}
+			c.runCycle(false)
 		}
-		c.runCycle(false)
 		c.run()
 		if rng.Intn(2) == 0 {
 			c.reset()
